@@ -74,6 +74,7 @@ type rsWorld struct {
 	c      *rsCase
 	ghosts int32
 	waited int32
+	hung   bool
 	viol   atomic.Value
 }
 
@@ -546,6 +547,7 @@ func rsRun(c rsCase, r *runCtx) (*rsWorld, bool) {
 	case <-done:
 	case <-time.After(rsStall + 20*time.Second):
 		w.fail("the scenario did not finish within %v: some call never returned", rsStall+20*time.Second)
+		w.hung = true
 		p.unhog()
 		dropRsPair(p)
 		return w, false
@@ -615,6 +617,16 @@ func prefixDiff(a, b []byte) int {
 
 // rsJudge applies the oracles of the given property to a finished run.
 func rsJudge(prop string, c rsCase, w *rsWorld, completed bool, r *runCtx) {
+	if w.hung {
+		// a call that never returns is what C10 (the peer observes the end of the stream) and C20 (every byte is offered without
+		// further traffic) promise not to happen; C07 and C09 say nothing about it (that is C11's business): no verdict from them
+		if prop == "C10" || prop == "C20" {
+			r.Violf("%s", w.viol.Load().(string))
+		} else {
+			r.Label("did-not-finish")
+		}
+		return
+	}
 	if v := w.viol.Load(); v != nil {
 		r.Violf("%s", v.(string))
 		return
